@@ -30,7 +30,7 @@ Theorem C16_tower_forwards_client (e : w_endpoint_spec) (req : w_mval) (len : Z)
 Proof. exact (tower_forwards_client e req len). Qed.
 
 (* The same, field by field, for the requests the client can build: a user id is a 33-byte
-   compressed key, a locator 16 bytes, a signature is never empty. *)
+   compressed key, a locator 16 bytes, an encrypted blob and a signature are never empty. *)
 Theorem C16_tower_parses_register user_id :
   w_wf_bytesb user_id = true -> length user_id = 33%nat ->
   w_of_json_tower WireSpec.W_EP_register (w_to_json_client WireSpec.W_EP_register (w_mk_register_request user_id))
@@ -41,15 +41,15 @@ Proof.
   apply C16_tower_parses_client; [simpl; auto | unfold w_typedb; simpl; rewrite W; reflexivity].
 Qed.
 
-Theorem C16_tower_parses_add_appointment locator blob to_self_delay c signature :
-  w_wf_bytesb locator = true -> length locator = 16%nat -> w_wf_bytesb blob = true -> WU32b to_self_delay = true ->
+Theorem C16_tower_parses_add_appointment locator y blob to_self_delay c signature :
+  w_wf_bytesb locator = true -> length locator = 16%nat -> w_wf_bytesb (y :: blob) = true -> WU32b to_self_delay = true ->
   w_of_json_tower WireSpec.W_EP_add_appointment
-      (w_to_json_client WireSpec.W_EP_add_appointment (w_mk_add_appointment_request locator blob to_self_delay (c :: signature)))
-    = Some (w_mk_add_appointment_request locator blob to_self_delay (c :: signature))
-  /\ w_handler_check WireSpec.W_EP_add_appointment (w_mk_add_appointment_request locator blob to_self_delay (c :: signature)) = None.
+      (w_to_json_client WireSpec.W_EP_add_appointment (w_mk_add_appointment_request locator (y :: blob) to_self_delay (c :: signature)))
+    = Some (w_mk_add_appointment_request locator (y :: blob) to_self_delay (c :: signature))
+  /\ w_handler_check WireSpec.W_EP_add_appointment (w_mk_add_appointment_request locator (y :: blob) to_self_delay (c :: signature)) = None.
 Proof.
-  intros W L Wb U. split; [|exact (handler_ok_add_appointment locator blob to_self_delay c signature L)].
-  apply C16_tower_parses_client; [simpl; auto | unfold w_typedb; simpl; rewrite W, Wb, U; reflexivity].
+  intros W L Wb U. split; [|exact (handler_ok_add_appointment locator y blob to_self_delay c signature L)].
+  apply C16_tower_parses_client; [simpl; auto | unfold w_typedb; cbn [w_typed_msgb]; simpl in *; rewrite W, U; simpl in Wb; rewrite Wb; reflexivity].
 Qed.
 
 Theorem C16_tower_parses_get_appointment locator c signature :
@@ -88,9 +88,12 @@ Theorem C16_client_parses_tower_error (e : w_endpoint_spec) (err : w_mval) :
   w_of_json_client e (w_to_json_err err) = WCError err.
 Proof. exact (client_parses_tower_error e err). Qed.
 
-(* The code as it is: where the client decodes the reply straight into the success type, EVERY error
-   object of the tower becomes RequestError::DeserializeError — no wrong value, but the tower's
-   error code and message are lost. *)
+(* Where the client decodes a reply straight into the success type (no ApiResponse<T>), EVERY error
+   object of the tower becomes RequestError::DeserializeError — no wrong value, but the tower's error
+   code and message are lost.  This was the case of register and get_subscription_info until the fix
+   c67cb11; the flag is regenerated from the plugin's source, so on the repaired tree no endpoint
+   satisfies the hypothesis (Example C16_client_reply_types_now) and C16_client_parses_tower_error
+   covers all four. *)
 Theorem C16_error_reply_undecoded_register_getsub (e : w_endpoint_spec) (err : w_mval) :
   In e WireSpec.W_ENDPOINTS -> w_ep_client_wrapped e = false -> w_typedb WireSpec.W_TowerApiError err = true ->
   w_of_json_client e (w_to_json_err err) = WCDeserializeError.
@@ -248,22 +251,13 @@ Theorem C16_format_as_documented :
    w_ep_cap WireSpec.W_EP_get_subscription_info = Consts.GET_SUBSCRIPTION_INFO_BODY_LEN).
 Proof. repeat split; reflexivity. Qed.
 
-(* ====================== the code as it is (known finding) ====================== *)
-(* "every reply the tower can emit is parsed by the client into exactly the values the tower
-   produced" is FALSE for error replies to register and get_subscription_info: *)
 Definition ex_err : w_mval := w_mk_api_error (w_s2b "Subscription maximum slots count reached") 65.
 
-Theorem C16_client_parses_tower_error_refuted :
-  exists e err, In e WireSpec.W_ENDPOINTS /\ w_typedb WireSpec.W_TowerApiError err = true /\
-                w_of_json_client e (w_to_json_err err) <> WCError err.
-Proof.
-  exists WireSpec.W_EP_register, ex_err. split; [simpl; auto|]. split; [reflexivity|]. vm_compute. discriminate.
-Qed.
-
-Example C16_unwrapped_endpoints_now :
+(* how the client decodes each reply on this tree (generated from the plugin's source) *)
+Example C16_client_reply_types_now :
   map (fun e => (w_ep_path e, w_ep_client_wrapped e)) WireSpec.W_ENDPOINTS =
-  [(w_s2b "/register", false); (w_s2b "/add_appointment", true); (w_s2b "/get_appointment", true);
-   (w_s2b "/get_subscription_info", false)].
+  [(w_s2b "/register", true); (w_s2b "/add_appointment", true); (w_s2b "/get_appointment", true);
+   (w_s2b "/get_subscription_info", true)].
 Proof. reflexivity. Qed.
 
 (* ====================== non-vacuity and worked values (kernel computations) ====================== *)
@@ -284,10 +278,19 @@ Example C16_ex_add_appointment_text :
 Proof. vm_compute. reflexivity. Qed.
 
 Example C16_ex_request_roundtrips :
-  w_typedb (w_ep_req WireSpec.W_EP_add_appointment) (w_mk_add_appointment_request ex_locator [] 0 ex_sig) = true /\
+  w_typedb (w_ep_req WireSpec.W_EP_add_appointment) (w_mk_add_appointment_request ex_locator [7] 0 ex_sig) = true /\
+  w_tower_http WireSpec.W_EP_add_appointment 2048 (Some (w_to_json_client WireSpec.W_EP_add_appointment (w_mk_add_appointment_request ex_locator [7] 0 ex_sig)))
+  = WTForward (w_mk_add_appointment_request ex_locator [7] 0 ex_sig) /\
+  (* an empty blob, a 15-byte locator, an empty signature are parsed faithfully and then refused by the handler *)
   w_tower_http WireSpec.W_EP_add_appointment 2048 (Some (w_to_json_client WireSpec.W_EP_add_appointment (w_mk_add_appointment_request ex_locator [] 0 ex_sig)))
-  = WTForward (w_mk_add_appointment_request ex_locator [] 0 ex_sig).
-Proof. split; vm_compute; reflexivity. Qed.
+  = WTReject Consts.ERR_EMPTY_FIELD /\
+  w_tower_http WireSpec.W_EP_add_appointment 2048 (Some (w_to_json_client WireSpec.W_EP_add_appointment (w_mk_add_appointment_request (tl ex_locator) [7] 0 ex_sig)))
+  = WTReject Consts.ERR_WRONG_FIELD_SIZE /\
+  w_tower_http WireSpec.W_EP_add_appointment 2048 (Some (w_to_json_client WireSpec.W_EP_add_appointment (w_mk_add_appointment_request ex_locator [7] 0 [])))
+  = WTReject Consts.ERR_EMPTY_FIELD /\
+  w_tower_http WireSpec.W_EP_add_appointment 2049 (Some (w_to_json_client WireSpec.W_EP_add_appointment (w_mk_add_appointment_request ex_locator [7] 0 ex_sig)))
+  = WTTooLarge.
+Proof. vm_compute. repeat split; reflexivity. Qed.
 
 (* txids travel byte-reversed: first byte 0x01 comes last, last byte 0xff first *)
 Example C16_ex_tracker_reply :
@@ -308,8 +311,11 @@ Example C16_ex_replies_decoded :
   = map WCResponse [r1; r2; r3; r4] /\
   w_of_json_client WireSpec.W_EP_get_appointment (w_to_json_err ex_err) = WCError ex_err /\
   w_of_json_client WireSpec.W_EP_add_appointment (w_to_json_err ex_err) = WCError ex_err /\
-  w_of_json_client WireSpec.W_EP_register (w_to_json_err ex_err) = WCDeserializeError /\
-  w_of_json_client WireSpec.W_EP_get_subscription_info (w_to_json_err ex_err) = WCDeserializeError.
+  w_of_json_client WireSpec.W_EP_register (w_to_json_err ex_err) = WCError ex_err /\
+  w_of_json_client WireSpec.W_EP_get_subscription_info (w_to_json_err ex_err) = WCError ex_err /\
+  (* decoding such a reply straight into the success type (what register / get_subscription_info did before c67cb11) *)
+  w_client_decode WireSpec.W_STATUS false WireSpec.W_API_RESPONSE_ORDER WireSpec.W_RegisterResponse WireSpec.W_ClientApiError (w_to_json_err ex_err)
+  = WCDeserializeError.
 Proof. vm_compute. repeat split; reflexivity. Qed.
 
 (* what the derived parsers do with input the other side never emits *)
@@ -391,4 +397,3 @@ Print Assumptions C16_within_limit.
 Print Assumptions C16_add_appointment_body_len.
 Print Assumptions C16_fixed_requests_fit.
 Print Assumptions C16_format_as_documented.
-Print Assumptions C16_client_parses_tower_error_refuted.
